@@ -43,6 +43,10 @@ def shards(tier, seed):
 	n = 4 if tier == 'quick' else 16
 	for i in range(n):
 		out.append(dict(name=f'e2e-{i}', kind='e2e', sub=i, nworlds=4 if tier == 'quick' else 20))
+	for s_ in out:
+		if s_.get('kind') in ['forest', 'e2e'] and not s_.get('sanitizer'):
+			s_['contracts'] = ['C03']
+	out.append(dict(name='suite-contracts', kind='suite-contracts', which=['C03'], tests=['tests/test_classify.py', 'tests/test_query.py']))
 	return out
 
 
@@ -223,7 +227,7 @@ def run_e2e(sh, ctx):
 			ctx.violation('cli-fails', f'gambit query exited {code}: {se[-200:]} {exc}', dict(world=desc))
 			continue
 		try:
-			rows = list(csv.DictReader(io.StringIO(out.read_text(), newline='')))
+			rows = list(csv.DictReader(io.StringIO(open(out, newline='').read(), newline='')))
 		except Exception as e:
 			ctx.count('csv_unparseable')   # judged by C11
 			continue
